@@ -444,7 +444,11 @@ func c14Worker(w *W) {
 			for _, sfx := range []string{".a2", ".a3"} {
 				nm := c.FileName + sfx
 				for k := 0; k < 3; k++ {
-					c.Ents = append(c.Ents, c14ent{Name: nm + "." + c14ts(r), AgeMin: int(c.MaxAge)*60 + 600 + k, Class: "own"})
+					age := int(c.MaxAge)*60 + 600 + k
+					if c.MaxAge > 800000 {
+						age = 100000 + k // "for ever" retentions: nothing can be older than the maximum age (see c14gen)
+					}
+					c.Ents = append(c.Ents, c14ent{Name: nm + "." + c14ts(r), AgeMin: age, Class: "own"})
 				}
 				c.Ents = append(c.Ents, c14ent{Name: nm + "." + c14ts(r), AgeMin: 0, Class: "own"})
 			}
